@@ -590,6 +590,10 @@ pub struct Family {
     /// every plan additionally with one ordinary `before` probe on the first mark of main, injected
     /// after the plan's probes and, separately, before them (order of API calls on one function)
     pub with_ordinary: bool,
+    /// every single-probe plan additionally with one probe of each of these (special) modes at every
+    /// applicable site of main, injected after it and, separately, before it; only the family's own
+    /// modes are judged (the companion's events belong to its own property)
+    pub companions: Vec<Mode>,
 }
 
 fn g(max_nodes: usize, max_depth: usize, leaves: &[Leaf], blocks: bool, loops: bool, ifs: bool, else_arms: bool, conds: &[Cond], results: u8) -> Grammar {
@@ -639,6 +643,24 @@ fn run_families(run: &mut Run, fams: &[Family], judged_modes: &[Mode], judge_beh
                             all_plans.push((last.clone(), Some(0)));
                             all_plans.push((last, Some(2)));
                             all_plans.push((first.clone(), Some(0)));
+                            all_plans.push((first, Some(2)));
+                        }
+                    }
+                }
+                if !fam.companions.is_empty() {
+                    let singles: Vec<Vec<Probe>> = all_plans.iter().filter(|(p, a)| p.len() == 1 && a.is_none()).map(|(p, _)| p.clone()).collect();
+                    let others = sites(prog, &fam.companions);
+                    for pl in singles {
+                        for (func, at, mode) in others.iter() {
+                            if *func != 0 {
+                                continue;
+                            }
+                            let comp = Probe { func: 0, at: *at, mode: *mode, id: 1901 };
+                            let mut last = pl.clone();
+                            last.push(comp.clone());
+                            let mut first = vec![comp];
+                            first.extend(pl.iter().cloned());
+                            all_plans.push((last, None));
                             all_plans.push((first, Some(2)));
                         }
                     }
@@ -715,13 +737,13 @@ pub fn check(id: &'static str, tier: Tier) -> i32 {
             let mut fams = vec![];
             for results in 0..3u8 {
                 let gr = g(if results == 0 { n } else { n - 1 }, 2, &[Mark, Br, BrIf, Ret, Unr, Call, GSet, Store, Div, RetCall, Throw], true, true, true, true, if tier == Tier::Quick { &[Cond::A, Cond::Ctr] } else { CONDS }, results);
-                fams.push(Family { name: ["results=[]", "results=[i32]", "results=[i32,i64]"][results as usize], programs: programs(&gr, &callees), modes: all.clone(), probes: if results == 0 { tier.pick(1, 2) } else { 1 }, same_site_twice: true, with_ordinary: false });
+                fams.push(Family { name: ["results=[]", "results=[i32]", "results=[i32,i64]"][results as usize], programs: programs(&gr, &callees), modes: all.clone(), probes: if results == 0 { tier.pick(1, 2) } else { 1 }, same_site_twice: true, with_ordinary: false, companions: vec![] });
             }
             // two probes on small programs in the quick tier
             let gr = g(2, 2, &[Mark, Br, BrIf, Ret, Call, GSet], true, true, true, true, CONDS, 0);
-            fams.push(Family { name: "two probes, small programs", programs: programs(&gr, &callees), modes: all.clone(), probes: 2, same_site_twice: true, with_ordinary: false });
+            fams.push(Family { name: "two probes, small programs", programs: programs(&gr, &callees), modes: all.clone(), probes: 2, same_site_twice: true, with_ordinary: false, companions: vec![] });
             let gr = g(tier.pick(2, 3), 2, &[Mark, BrTable], true, false, true, false, &[Cond::A], 0);
-            fams.push(Family { name: "br_table programs", programs: programs(&gr, &callees), modes: all, probes: tier.pick(1, 2), same_site_twice: false, with_ordinary: false });
+            fams.push(Family { name: "br_table programs", programs: programs(&gr, &callees), modes: all, probes: tier.pick(1, 2), same_site_twice: false, with_ordinary: false, companions: vec![] });
             (fams, vec![Mode::Before, Mode::After], true)
         }
         "C17" => {
@@ -729,47 +751,55 @@ pub fn check(id: &'static str, tier: Tier) -> i32 {
             let mut fams = vec![];
             for results in 0..3u8 {
                 let gr = g(if results == 0 { tier.pick(3, 4) } else { tier.pick(2, 3) }, 3, &[Mark, Br, BrIf, Ret, Unr, Throw, Call, RetCall, Div], true, results == 0, true, true, if tier == Tier::Quick { &[Cond::A, Cond::Ctr] } else { CONDS }, results);
-                fams.push(Family { name: ["exits results=[]", "exits results=[i32]", "exits results=[i32,i64]"][results as usize], programs: programs(&gr, &callees), modes: modes.clone(), probes: tier.pick(2, 4), same_site_twice: true, with_ordinary: false });
+                fams.push(Family { name: ["exits results=[]", "exits results=[i32]", "exits results=[i32,i64]"][results as usize], programs: programs(&gr, &callees), modes: modes.clone(), probes: tier.pick(2, 4), same_site_twice: true, with_ordinary: false, companions: vec![] });
             }
             // one node more, over the exit-relevant statements only (no loops, one condition): reaches
             // `if c {transfer} else {exit}` and exits behind dead code, which the lowering has to treat
             // per arm (seeded change C17b)
             let gr = g(tier.pick(4, 5), 3, &[Mark, Br, Ret, Unr, RetCall, Throw], true, false, true, true, &[Cond::A], 0);
-            fams.push(Family { name: "exits in both arms and behind dead code", programs: programs(&gr, &callees), modes: modes.clone(), probes: tier.pick(1, 2), same_site_twice: false, with_ordinary: false });
+            fams.push(Family { name: "exits in both arms and behind dead code", programs: programs(&gr, &callees), modes: modes.clone(), probes: tier.pick(1, 2), same_site_twice: false, with_ordinary: false, companions: vec![] });
             let gr = g(tier.pick(3, 4), 3, &[Mark, Br, Ret, Unr], true, false, true, true, &[Cond::A], 0);
-            fams.push(Family { name: "entry/exit probes with an ordinary probe on the same function", programs: programs(&gr, &callees), modes: modes.clone(), probes: 2, same_site_twice: false, with_ordinary: true });
+            fams.push(Family { name: "entry/exit probes with an ordinary probe on the same function", programs: programs(&gr, &callees), modes: modes.clone(), probes: 2, same_site_twice: false, with_ordinary: true, companions: vec![] });
+            let gr = g(tier.pick(3, 4), 3, &[Mark, Br, Ret], true, true, true, true, &[Cond::A], 0);
+            fams.push(Family { name: "entry/exit probe with a probe of another special mode on the same function", programs: programs(&gr, &callees), modes: modes.clone(), probes: 1, same_site_twice: false, with_ordinary: false, companions: vec![Mode::BlockEntry, Mode::BlockExit, Mode::SemanticAfter] });
             let gr = g(tier.pick(2, 3), 3, &[Mark, BrTable, Ret], true, false, true, false, &[Cond::A, Cond::B], 0);
-            fams.push(Family { name: "br_table to function label", programs: programs(&gr, &callees), modes: modes.clone(), probes: 2, same_site_twice: false, with_ordinary: false });
+            fams.push(Family { name: "br_table to function label", programs: programs(&gr, &callees), modes: modes.clone(), probes: 2, same_site_twice: false, with_ordinary: false, companions: vec![] });
             (fams, modes, true)
         }
         "C18" => {
             let modes = vec![Mode::BlockEntry];
             let gr = if tier == Tier::Quick { g(4, 3, &[Mark, Br, BrIf], true, true, true, true, &[Cond::A, Cond::Ctr], 0) } else { g(5, 3, &[Mark, Br, BrIf, Ret], true, true, true, true, CONDS, 0) };
-            let mut fams = vec![Family { name: "nested blocks/loops/ifs", programs: programs(&gr, &callees), modes: modes.clone(), probes: tier.pick(2, 3), same_site_twice: true, with_ordinary: false }];
+            let mut fams = vec![Family { name: "nested blocks/loops/ifs", programs: programs(&gr, &callees), modes: modes.clone(), probes: tier.pick(2, 3), same_site_twice: true, with_ordinary: false, companions: vec![] }];
             let gr = g(tier.pick(3, 4), 3, &[Mark, BrIf], true, true, true, true, &[Cond::A, Cond::Ctr], 0);
-            fams.push(Family { name: "block-entry probes with an ordinary probe on the same function", programs: programs(&gr, &callees), modes: modes.clone(), probes: 2, same_site_twice: false, with_ordinary: true });
+            fams.push(Family { name: "block-entry probes with an ordinary probe on the same function", programs: programs(&gr, &callees), modes: modes.clone(), probes: 2, same_site_twice: false, with_ordinary: true, companions: vec![] });
+            let gr = g(tier.pick(3, 4), 3, &[Mark, Br, BrIf], true, true, true, true, &[Cond::A], 0);
+            fams.push(Family { name: "block-entry probe with a probe of another special mode on the same function", programs: programs(&gr, &callees), modes: modes.clone(), probes: 1, same_site_twice: false, with_ordinary: false, companions: vec![Mode::BlockExit, Mode::SemanticAfter, Mode::FuncEntry, Mode::FuncExit] });
             (fams, modes, true)
         }
         "C19" => {
             let modes = vec![Mode::BlockExit];
             let gr = if tier == Tier::Quick { g(4, 3, &[Mark, Br, BrIf], true, true, true, true, &[Cond::A, Cond::Ctr], 0) } else { g(5, 3, &[Mark, Br, BrIf, Ret], true, true, true, true, CONDS, 0) };
-            let mut fams = vec![Family { name: "nested constructs inside if-arms", programs: programs(&gr, &callees), modes: modes.clone(), probes: tier.pick(2, 3), same_site_twice: true, with_ordinary: false }];
+            let mut fams = vec![Family { name: "nested constructs inside if-arms", programs: programs(&gr, &callees), modes: modes.clone(), probes: tier.pick(2, 3), same_site_twice: true, with_ordinary: false, companions: vec![] }];
             let gr = g(tier.pick(3, 4), 3, &[Mark, BrIf], true, true, true, true, &[Cond::A, Cond::Ctr], 0);
-            fams.push(Family { name: "block-exit probes with an ordinary probe on the same function", programs: programs(&gr, &callees), modes: modes.clone(), probes: 2, same_site_twice: false, with_ordinary: true });
+            fams.push(Family { name: "block-exit probes with an ordinary probe on the same function", programs: programs(&gr, &callees), modes: modes.clone(), probes: 2, same_site_twice: false, with_ordinary: true, companions: vec![] });
+            let gr = g(tier.pick(3, 4), 3, &[Mark, Br, BrIf], true, true, true, true, &[Cond::A], 0);
+            fams.push(Family { name: "block-exit probe with a probe of another special mode on the same function", programs: programs(&gr, &callees), modes: modes.clone(), probes: 1, same_site_twice: false, with_ordinary: false, companions: vec![Mode::BlockEntry, Mode::SemanticAfter, Mode::FuncEntry, Mode::FuncExit] });
             (fams, modes, true)
         }
         "C20" => {
             let modes = vec![Mode::SemanticAfter];
             let mut fams = vec![];
             let gr = if tier == Tier::Quick { g(4, 3, &[Mark, Br, BrIf], true, true, true, true, &[Cond::A, Cond::Ctr], 0) } else { g(5, 3, &[Mark, Br, BrIf, Ret], true, true, true, true, CONDS, 0) };
-            fams.push(Family { name: "branches inside loops and blocks", programs: programs(&gr, &callees), modes: modes.clone(), probes: tier.pick(2, 3), same_site_twice: true, with_ordinary: false });
+            fams.push(Family { name: "branches inside loops and blocks", programs: programs(&gr, &callees), modes: modes.clone(), probes: tier.pick(2, 3), same_site_twice: true, with_ordinary: false, companions: vec![] });
             let gr = g(tier.pick(3, 4), 3, &[Mark, BrTable, BrIf], true, true, true, false, &[Cond::A, Cond::Ctr], 0);
-            fams.push(Family { name: "br_table across depths and the function label", programs: programs(&gr, &callees), modes: modes.clone(), probes: tier.pick(2, 3), same_site_twice: false, with_ordinary: false });
+            fams.push(Family { name: "br_table across depths and the function label", programs: programs(&gr, &callees), modes: modes.clone(), probes: tier.pick(2, 3), same_site_twice: false, with_ordinary: false, companions: vec![] });
             let gr = g(tier.pick(3, 4), 3, &[Mark, Br, BrIf], true, false, true, true, &[Cond::A], 0);
-            fams.push(Family { name: "semantic-after probes with an ordinary probe on the same function", programs: programs(&gr, &callees), modes: modes.clone(), probes: 2, same_site_twice: false, with_ordinary: true });
+            fams.push(Family { name: "semantic-after probes with an ordinary probe on the same function", programs: programs(&gr, &callees), modes: modes.clone(), probes: 2, same_site_twice: false, with_ordinary: true, companions: vec![] });
+            let gr = g(tier.pick(3, 4), 3, &[Mark, Br, BrIf], true, false, true, true, &[Cond::A], 0);
+            fams.push(Family { name: "semantic-after probe with a probe of another special mode on the same function", programs: programs(&gr, &callees), modes: modes.clone(), probes: 1, same_site_twice: false, with_ordinary: false, companions: vec![Mode::BlockEntry, Mode::BlockExit, Mode::FuncEntry, Mode::FuncExit] });
             for results in 1..3u8 {
                 let gr = g(3, 2, &[Mark, Br, BrIf], true, false, true, true, &[Cond::A, Cond::B], results);
-                fams.push(Family { name: ["", "results=[i32]", "results=[i32,i64]"][results as usize], programs: programs(&gr, &callees), modes: modes.clone(), probes: 2, same_site_twice: false, with_ordinary: false });
+                fams.push(Family { name: ["", "results=[i32]", "results=[i32,i64]"][results as usize], programs: programs(&gr, &callees), modes: modes.clone(), probes: 2, same_site_twice: false, with_ordinary: false, companions: vec![] });
             }
             (fams, modes, true)
         }
